@@ -33,6 +33,10 @@ MStep == /\ l <= Len(Trace) /\ l' = l + 1
                     [] E.kind = "missing" -> [twin |-> TRUE, lit |-> TRUE, prop |-> TRUE, expr |-> TRUE, nopanic |-> ~E.panic, valid |-> MissingOK(E), exact |-> TRUE]
                     [] E.kind = "vstruct" -> [twin |-> TRUE, lit |-> TRUE, prop |-> TRUE, expr |-> TRUE, nopanic |-> ~E.panic, exact |-> TRUE,
                                               valid |-> (E.ok <=> ~ValidationFails(ToInt(E.x), ConsOf(E.cons)))]
+                    \* C17: a bound value is the field's own: a write through one component's bound map / list changes neither what a
+                    \* later component receives for the same key (by prefix, by placeholder) nor the configuration itself
+                    [] E.kind = "alias" -> [twin |-> TRUE, lit |-> TRUE, prop |-> TRUE, expr |-> TRUE, nopanic |-> ~E.panic, valid |-> TRUE,
+                                            exact |-> (E.ok /\ E.bp = E.want /\ E.bv = E.want /\ E.get = E.want)]
                     [] E.kind = "vnest" -> [twin |-> TRUE, lit |-> TRUE, prop |-> TRUE, expr |-> TRUE, nopanic |-> ~E.panic, exact |-> TRUE,
                                             valid |-> (E.ok <=> ~NestedRequiredFails(E.ptr, E.nx))]
                     [] E.kind = "vslice" -> [twin |-> TRUE, lit |-> TRUE, prop |-> TRUE, expr |-> TRUE, nopanic |-> ~E.panic, exact |-> TRUE,
